@@ -40,6 +40,31 @@ def subset_case(sess, suite, n, t, kind, sub_idx, key=None):
     sess.oracle(a.err == "IncorrectNumberOfShares", "coordinator did not refuse fewer than min_signers shares (%s)" % a.raw, rp())
     rc = sess.call("reconstruct %s kps=%s" % (suite, ";".join(kps[i] for i in sub)), EXACT, "reconstruct")
     sess.oracle(rc.err == "IncorrectNumberOfShares", "reconstruct did not refuse fewer than min_signers packages (%s)" % rc.raw, rp())
+    # the same refusals through every other entry point that signs or aggregates
+    for mode in ("all", "disabled"):
+        a = aggregate(sess, suite, msg, comms, fake, pkp, mode, EXACT)
+        sess.oracle(a.err == "IncorrectNumberOfShares", "aggregate_custom(%s) did not refuse fewer than min_signers shares (%s)" % (mode, a.raw), rp())
+    p = sess.call("rand_new %s vk=%s comms=%s tape=%s" % (suite, pk["vk"], comms, sess.tape(128)), EXACT, "rand_new")
+    if p.ok:
+        for i in sub[:2]:
+            s = sess.call("rand_sign %s msg=%s comms=%s nonces=%s kp=%s seed=%s" % (suite, msg, comms, nonces[i], kps[i], p["seed"]), CLASS, "rand_sign-few")
+            sess.oracle(s.err == "IncorrectNumberOfCommitments", "re-randomized signing did not refuse a package with fewer than min_signers participants (%s)" % s.raw, rp())
+        for mode in ("first", "all", "disabled"):
+            a = sess.call("rand_aggregate %s msg=%s comms=%s shares=%s pkp=%s mode=%s r=%s" % (suite, msg, comms, shares_str(fake), pkp, mode, p["r"]), CLASS, "rand_aggregate-few")
+            sess.oracle(a.err == "IncorrectNumberOfShares", "re-randomized aggregation (%s) did not refuse fewer than min_signers shares (%s)" % (mode, a.raw), rp())
+    # a key package obtained through repair (also from a pre-3.0 public key package, which records no threshold)
+    i0 = sub[0]
+    for pp, what in ((pkp, "a repaired"), (mk_pkp(pk["vshares"], pk["vk"], None), "a key package repaired from a legacy public key package (no threshold) is refused, or a repaired")):
+        rr = sess.call("repair3 %s sigmas=%s id=%s pkp=%s" % (suite, ",".join([kp_fields(kps[i0])["share"], fld.enc(0)]), i0, pp), EXACT, "repair3")
+        if rr.ok:
+            s = sess.call("sign %s msg=%s comms=%s nonces=%s kp=%s" % (suite, msg, comms, nonces[i0], rr["kp"]), EXACT, "sign-repaired-few")
+            sess.oracle(s.err == "IncorrectNumberOfCommitments", "%s signer did not refuse a package with fewer than min_signers participants (%s)" % (what, s.raw), rp())
+    if suite == "secp256k1-tr":
+        root = rng.choice(["none", "", rng.randbytes(32).hex()])
+        s = sess.call("tr_sign %s msg=%s comms=%s nonces=%s kp=%s root=%s" % (suite, msg, comms, nonces[sub[0]], kps[sub[0]], root), EXACT, "tr_sign-few")
+        sess.oracle(s.err == "IncorrectNumberOfCommitments", "sign_with_tweak did not refuse a package with fewer than min_signers participants (%s)" % s.raw, rp())
+        a = sess.call("tr_aggregate %s msg=%s comms=%s shares=%s pkp=%s root=%s" % (suite, msg, comms, shares_str(fake), pkp, root), EXACT, "tr_aggregate-few")
+        sess.oracle(a.err == "IncorrectNumberOfShares", "aggregate_with_tweak did not refuse fewer than min_signers shares (%s)" % a.raw, rp())
     sess.case("honest|%s|%s|%s" % (suite, pkp, ",".join(sub)), sample={"suite": suite, "n": n, "t": t, "subset": sub, "variant": "honest thresholds", "sign": resps[sub[0]].raw})
     # (b) everybody lies about the threshold
     low = max(1, k)
